@@ -32,35 +32,78 @@ theorem At.of_append (pre L post : List Instr) : At (pre ++ L ++ post) pre.lengt
   rw [List.append_assoc, List.getElem?_append_right (by omega)]
   simp [List.getElem?_append_left hk]
 
-/-- the VM gets from `s` to `s'` by executing instructions of `C` -/
+/-- the VM gets from `s` to `s'` by executing instructions of `C`; a `CallFunction` is one step whose
+premise is the run of the macro's code (in a fresh context, up to its `Return`) -/
 inductive Reach (ctx : Scope) (C : List Instr) : VmState → VmState → Prop where
   | refl (s : VmState) : Reach ctx C s s
   | cons {s s' s'' : VmState} {i : Instr} : C[s.pc]? = some i → MJ.Vm.step ctx i s = .ok s' →
       Reach ctx C s' s'' → Reach ctx C s s''
+  | call {s s1 s'' : VmState} {name : String} {argc : Nat} {args rest : List Val} {nm : String} {spec : List String}
+      {off : Nat} {clo : Option Nat} {cref : Bool} {vals : List Val} {caller : Option Val} :
+      C[s.pc]? = some (.callFunction name argc) → popN argc s.stack = some (args, rest) →
+      lookupFrames ctx s.closures name s.frames = .vmMacro nm spec off clo cref →
+      prepareArgs spec cref args = .ok (vals, caller) →
+      Reach ctx C (calleeState off clo caller vals s.closures) s1 → C[s1.pc]? = some .return_ →
+      Reach ctx C { s with pc := s.pc + 1, stack := .str (s1.outs.getLast?.getD "") :: rest, closures := s1.closures } s'' →
+      Reach ctx C s s''
 
 theorem Reach.trans {ctx C s1 s2 s3} (h1 : Reach ctx C s1 s2) (h2 : Reach ctx C s2 s3) : Reach ctx C s1 s3 := by
   induction h1 with
   | refl => exact h2
   | cons hi hs _ ih => exact Reach.cons hi hs (ih h2)
+  | call hi hp hl ha hb hr _ _ ih2 => exact Reach.call hi hp hl ha hb hr (ih2 h2)
 
 theorem Reach.one {ctx C s s' i} (hi : C[s.pc]? = some i) (hs : MJ.Vm.step ctx i s = .ok s') : Reach ctx C s s' :=
   Reach.cons hi hs (Reach.refl _)
 
-/-- reaching a state whose pc is outside the code means `run` returns it (with enough fuel) -/
-theorem Reach.toRun {ctx C s s'} (h : Reach ctx C s s') (hend : C[s'.pc]? = none) :
+/-- the run stops: the program counter is outside the code, or at a `Return` -/
+def Halted (C : List Instr) (s : VmState) : Prop := C[s.pc]? = none ∨ C[s.pc]? = some .return_
+
+theorem run_halted {ctx C s} (h : Halted C s) (k : Nat) : MJ.Vm.run ctx C (k + 1) s = .ok s := by
+  rcases h with h | h <;> simp [MJ.Vm.run, h]
+
+theorem step_not_return {ctx i s s'} (h : MJ.Vm.step ctx i s = .ok s') : i ≠ .return_ := by
+  intro e; subst e; simp [MJ.Vm.step] at h
+
+theorem stepF_of_step {ctx C i s s'} (h : MJ.Vm.step ctx i s = .ok s') (k : Nat) :
+    MJ.Vm.stepF ctx C (k + 1) i s = .ok s' := by
+  cases i <;> first | (simp [MJ.Vm.step] at h; done) | (simpa [MJ.Vm.stepF] using h)
+
+/-- reaching a halted state means `run` returns it (with enough fuel) -/
+theorem Reach.toRun {ctx C s s'} (h : Reach ctx C s s') (hend : Halted C s') :
     ∃ fuel, ∀ k, MJ.Vm.run ctx C (fuel + k) s = .ok s' := by
   induction h with
-  | refl s => exact ⟨1, fun k => by rw [Nat.add_comm]; simp [MJ.Vm.run, hend]⟩
-  | cons hi hs _ ih =>
+  | refl s => exact ⟨1, fun k => by rw [Nat.add_comm]; exact run_halted hend k⟩
+  | @cons s s1 s2 i hi hs _ ih =>
     obtain ⟨f, hf⟩ := ih hend
-    refine ⟨f + 1, fun k => ?_⟩
-    have : f + 1 + k = (f + k) + 1 := by omega
-    rw [this]; simp [MJ.Vm.run, hi, hs, hf]
-
-/-- the frames of the VM and the scope cells of the reference semantics agree on every variable -/
-def EnvRel (ctx : Scope) (heap : Heap) (stack : List Nat) (frames : List Frame) : Prop :=
-  ∀ x, lookupFrames ctx x frames = (lookup ctx heap stack x).getD .undef
-
+    refine ⟨f + 2, fun k => ?_⟩
+    have e : f + 2 + k = (f + k + 1) + 1 := by omega
+    rw [e]
+    have hne := step_not_return hs
+    have : MJ.Vm.run ctx C (f + k + 1 + 1) s = MJ.Vm.run ctx C (f + k + 1) s1 := by
+      rw [MJ.Vm.run, hi]
+      cases i <;> first | exact absurd rfl hne | simp [stepF_of_step hs]
+    rw [this]
+    have e2 : f + k + 1 = f + (k + 1) := by omega
+    rw [e2]; exact hf _
+  | @call s s1 s2 name argc args rest nm spec off clo cref vals caller hi hp hl ha _ hr _ ih1 ih2 =>
+    obtain ⟨f1, hf1⟩ := ih1 (Or.inr hr)
+    obtain ⟨f2, hf2⟩ := ih2 hend
+    refine ⟨f1 + f2 + 3, fun k => ?_⟩
+    have e : f1 + f2 + 3 + k = (f1 + f2 + k + 2) + 1 := by omega
+    rw [e, MJ.Vm.run, hi]
+    have e1 : f1 + f2 + k + 2 = (f1 + f2 + k + 1) + 1 := by omega
+    simp only
+    rw [e1, MJ.Vm.stepF, hp]
+    simp only
+    have e3 : f1 + f2 + k + 1 = (f1 + f2 + k) + 1 := by omega
+    rw [hl, e3, MJ.Vm.callF, ha]
+    simp only
+    have e4 : f1 + f2 + k = f1 + (f2 + k) := by omega
+    rw [e4, hf1]
+    simp only
+    have e5 : f1 + (f2 + k) + 1 + 1 = f2 + (f1 + k + 2) := by omega
+    rw [e5]; exact hf2 _
 
 @[simp] theorem oof_filterId (a : Aux) (n : String) : (a.filterId n).2.oof = a.oof := rfl
 @[simp] theorem oof_testId (a : Aux) (n : String) : (a.testId n).2.oof = a.oof := rfl
@@ -120,7 +163,20 @@ theorem relExpr_oof_mono : ∀ (e : Expr) (b : Nat) (a : Aux), a.oof = true → 
     | val v => simp [h]
     | oof => simp
     | no => simp only; exact relExpr_oof_mono i _ _ (relExpr_oof_mono x b a h)
-  | .call _ _, b, a, h => by unfold relExpr; cases asConst (.call _ _) <;> simp [h]
+  | .call f args, b, a, h => by
+    cases f with
+    | var x =>
+      unfold relExpr
+      simp only [asConst]
+      have hp := relPosArgs_oof_mono args b a h
+      cases kwArgs args with
+      | nil => simpa using hp
+      | cons k0 ks =>
+        simp only
+        cases staticKwargs (k0 :: ks) with
+        | some m => simpa using hp
+        | none => simp only; exact relKwArgs_oof_mono args _ _ hp
+    | _ => unfold relExpr; simp [asConst]
   | .list items, b, a, h => by
     unfold relExpr; cases asConst (.list items) <;> simp [h, relList_oof_mono items b a h]
   | .map kvs, b, a, h => by
@@ -137,6 +193,18 @@ theorem relArgs_oof_mono : ∀ (args : List (Option String × Expr)) (b : Nat) (
   | (none, e) :: rest, b, a, h => by
     simp only [relArgs]; exact relArgs_oof_mono rest _ _ (relExpr_oof_mono e b a h)
   | (some _, _) :: _, b, a, h => by simp [relArgs]
+theorem relPosArgs_oof_mono : ∀ (args : List (Option String × Expr)) (b : Nat) (a : Aux), a.oof = true →
+    (relPosArgs args b a).2.oof = true
+  | [], b, a, h => by simp [relPosArgs, h]
+  | (none, e) :: rest, b, a, h => by
+    simp only [relPosArgs]; exact relPosArgs_oof_mono rest _ _ (relExpr_oof_mono e b a h)
+  | (some _, _) :: rest, b, a, h => by simp only [relPosArgs]; exact relPosArgs_oof_mono rest b a h
+theorem relKwArgs_oof_mono : ∀ (args : List (Option String × Expr)) (b : Nat) (a : Aux), a.oof = true →
+    (relKwArgs args b a).2.oof = true
+  | [], b, a, h => by simp [relKwArgs, h]
+  | (none, _) :: rest, b, a, h => by simp only [relKwArgs]; exact relKwArgs_oof_mono rest b a h
+  | (some _, e) :: rest, b, a, h => by
+    simp only [relKwArgs]; exact relKwArgs_oof_mono rest _ _ (relExpr_oof_mono e _ a h)
 theorem relList_oof_mono : ∀ (es : List Expr) (b : Nat) (a : Aux), a.oof = true →
     (relList es b a).2.oof = true
   | [], b, a, h => by simp [relList, h]
@@ -157,31 +225,11 @@ theorem oof_false_of_relExpr {e b a} (h : (relExpr e b a).2.oof = false) : a.oof
   | true => rw [relExpr_oof_mono e b a ha] at h; cases h
 
 
-/-- executing the code of `e` from `s` pushes the value of `e` -/
-def SimExpr (n : Nat) : Prop :=
-  ∀ e ctx heap stack v, evalExpr n ctx heap stack e = .ok v → simpleExpr e = true →
-    ∀ C base a s, At C base (relExpr e base a).1 → (relExpr e base a).2.oof = false → s.pc = base →
-      EnvRel ctx heap stack s.frames →
-      Reach ctx C s { s with pc := base + (relExpr e base a).1.length, stack := v :: s.stack }
-
 theorem relExpr_val {e w} (hc : asConst e = .val w) (base a) : relExpr e base a = ([.loadConst w], a) := by
   unfold relExpr; simp [hc]
 
 theorem relExpr_oof {e} (hc : asConst e = .oof) (base a) : relExpr e base a = ([], a.markOof) := by
   unfold relExpr; simp [hc]
-
-theorem sim_folded {n e ctx heap stack v w} (hc : asConst e = .val w)
-    (hev : evalExpr n ctx heap stack e = .ok v) {C base a s}
-    (hAt : At C base (relExpr e base a).1) (hpc : s.pc = base) :
-    Reach ctx C s { s with pc := base + (relExpr e base a).1.length, stack := v :: s.stack } := by
-  rw [relExpr_val hc] at hAt ⊢
-  have hv : v = w := by
-    rcases asConst_sound hc n ctx heap stack with h | h <;> rw [h] at hev <;> simp at hev
-    exact hev.symm
-  subst hv
-  refine Reach.one (i := .loadConst v) (by rw [hpc]; exact hAt.head) ?_
-  simp [MJ.Vm.step, hpc]
-
 
 theorem rel_var {x} (base a) : relExpr (.var x) base a = ([.lookup x], a) := by
   conv => lhs; unfold relExpr
